@@ -35,6 +35,34 @@ type c27Change struct {
 	id           int
 }
 
+// c27Row renders a row for the driver line: the canonical values joined (integral REALs written as
+// the integer SQLite hands to the hook), hex-encoded; "?" when the harness does not know the row
+// (rows touched by a statement that failed afterwards), "-" when there is none.
+func c27RowTok(vals []string, known bool) string {
+	if vals == nil {
+		if known {
+			return "-"
+		}
+		return vfHex("?")
+	}
+	return vfHex(c27NumJoin(vals))
+}
+
+// token renders the change as SQLite reports it to the hook
+func (c c27Change) token() string {
+	known := c.before != nil || c.after != nil
+	old, nw := c27RowTok(c.before, known), c27RowTok(c.after, known)
+	if !known { // which sides exist follows from the operation
+		switch c.op {
+		case "insert":
+			old = "-"
+		case "delete":
+			nw = "-"
+		}
+	}
+	return fmt.Sprintf("%s#%d#%s#%d#%d#%s#%s", c.table, c.id, c.op[:1], c.oldID, c.newID, old, nw)
+}
+
 func (c c27Change) key() string { return fmt.Sprintf("%s/%s/%d/%d", c.table, c.op, c.oldID, c.newID) }
 
 var c27Tables = map[string][]string{
@@ -391,7 +419,7 @@ func TestVerifC27(t *testing.T) {
 					changeID++
 					chs[k].id = changeID
 					byKey[chs[k].key()] = append(byKey[chs[k].key()], chs[k])
-					toks = append(toks, fmt.Sprintf("%s#%d#%s", chs[k].table, changeID, chs[k].op[:1]))
+					toks = append(toks, chs[k].token())
 				}
 				kind := "ok"
 				if s.kind == "read" || (!tx && !failed && len(chs) == 0 && shadowCommits == commitsBefore) {
@@ -465,10 +493,21 @@ func TestVerifC27(t *testing.T) {
 					chg := cands[used[key]]
 					used[key]++
 					hasVals := ev.OldRow != nil || ev.NewRow != nil
-					tok := fmt.Sprintf("%s#%d#%s", chg.table, chg.id, chg.op[:1])
-					if hasVals {
-						tok += "v"
+					known := chg.before != nil || chg.after != nil
+					rowTok := func(r *command.CDCRow) string {
+						if r == nil {
+							return "-"
+						}
+						if !known {
+							return vfHex("?")
+						}
+						var vs []string
+						for _, v := range r.Values {
+							vs = append(vs, c27CanonCDC(v))
+						}
+						return vfHex(c27NumJoin(vs))
 					}
+					tok := fmt.Sprintf("%s#%d#%s#%d#%d#%s#%s", ev.Table, chg.id, op[:1], ev.OldRowId, ev.NewRowId, rowTok(ev.OldRow), rowTok(ev.NewRow))
 					es = append(es, tok)
 					delivered = append(delivered, chg)
 					// ---- the property on this event ----
@@ -504,12 +543,12 @@ func TestVerifC27(t *testing.T) {
 			var want []string
 			for _, chg := range committed {
 				if matches(chg.table) {
-					want = append(want, fmt.Sprintf("%s#%d#%s", chg.table, chg.id, chg.op[:1]))
+					want = append(want, fmt.Sprintf("%s#%d", chg.table, chg.id))
 				}
 			}
 			var got []string
 			for _, chg := range delivered {
-				got = append(got, fmt.Sprintf("%s#%d#%s", chg.table, chg.id, chg.op[:1]))
+				got = append(got, fmt.Sprintf("%s#%d", chg.table, chg.id))
 			}
 			dropped := stats.Get(cdcDroppedEvents).(*expvar.Int).Value() - droppedBefore
 			if dropped > 0 {
